@@ -126,6 +126,7 @@ class Evaluator:
         self.fns = fns
         self.enums = enums
         self.inline_depth = inline_depth
+        self._stack: list = []
         self._summaries: dict[str, object] = {}
         self._evaluating: set[str] = set()
         self._seq = 0
@@ -346,8 +347,8 @@ class Evaluator:
                 nm, _, val = part.strip().partition(': ')
                 fields.append((nm, self.operand(fn, val, env)))
             return ('agg', _strip_generics(m.group(1)), tuple(fields))
-        if re.match(r'[A-Za-z_][\w:<>, &\']*$', r):
-            return ('agg', _strip_generics(r), ())
+        if re.match(r'[A-Za-z_][\w:<>, &\'()\[\];]*::[A-Za-z_]\w*$', r) or re.match(r'[A-Za-z_][\w:<>, &\']*$', r):
+            return ('agg', _strip_generics(r), ())                  # a unit variant, possibly of a type with tuple generics
         raise AnalysisError(f'{fn.short}: cannot parse rvalue {rhs!r}')
 
     @staticmethod
@@ -380,7 +381,49 @@ class Evaluator:
             for n, _t in fn.params:
                 env[n] = ('param', fn.debug_of.get(n, f'_{n}'))
         out: list[Path] = []
-        self._walk(fn, entry, dict(env), [], [], [], {}, stops, out, depth, entry)
+        self._stack.append(fn.short)
+        try:
+            self._walk(fn, entry, dict(env), [], [], [], {}, stops, out, depth, entry)
+        finally:
+            self._stack.pop()
+        for p in out:
+            p.conds = self._merge_variant_conds(p.conds)
+        return out
+
+    def _merge_variant_conds(self, conds):
+        """one condition per scrutinee: `not A` followed by `is B` is `is B`; `not A`, `not B` on a three-variant enum is `is C`
+        (an `if let` chain and a `match` then give the same path conditions)"""
+        keys = [c for c, _o in conds if c[0] == 'variant']
+        if len(keys) == len(set(keys)) and not any(isinstance(o, tuple) and o and o[0] == 'not' for c, o in conds if c[0] == 'variant'):
+            return conds
+        merged: dict = {}
+        for c, o in conds:
+            if c[0] != 'variant':
+                continue
+            have = merged.get(c)
+            if isinstance(o, tuple) and o and o[0] == 'not':
+                if have is None:
+                    merged[c] = ('not', tuple(o[1]))
+                elif have[0] == 'not':
+                    merged[c] = ('not', tuple(sorted(set(have[1]) | set(o[1]))))
+            else:
+                merged[c] = ('is', o)
+        for c, m in list(merged.items()):
+            if m[0] == 'not':
+                names = {'Option': ['None', 'Some'], 'Result': ['Ok', 'Err']}.get(c[2]) or [n for n, _i in self.enums.get(c[2], [])]
+                rest = [n for n in names if n not in m[1]]
+                if names and len(rest) == 1:
+                    merged[c] = ('is', rest[0])
+        out, done = [], set()
+        for c, o in conds:
+            if c[0] != 'variant':
+                out.append((c, o))
+                continue
+            if c in done:
+                continue
+            done.add(c)
+            m = merged[c]
+            out.append((c, m[1] if m[0] == 'is' else ('not', m[1])))
         return out
 
     def _walk(self, fn, bb, env, conds, events, visited, decided, stops, out, depth, entry):
@@ -640,8 +683,10 @@ class Evaluator:
             val = self._inline_closure(fn, args[0], args[1:], env, conds, events, depth, bb)
         else:
             callee = self._local(t.callee, name)
+            # a call back into a function that is being evaluated further up (mutual recursion through a helper) is a recursive call:
+            # it stays a call, like the direct recursion of the function itself
             if callee is not None and name not in PURE_LOCAL and depth < self.inline_depth \
-                    and callee.short != fn.short:
+                    and callee.short != fn.short and callee.short not in self._stack:
                 s = self.summary(callee, depth + 1)
                 if s is not None:
                     val = self._apply_summary(callee, s, raw_args, args, env, events, bb, fn)
@@ -731,11 +776,14 @@ class Evaluator:
         return ps
 
     def _inline_forking(self, fn, t, callee, raw_args, args, env, conds, events, visited, decided, stops, out, depth, entry, bb) -> bool:
-        """a local helper with several paths (tests, early panics) and no `&mut` parameter is evaluated in place: each of its paths
+        """a local helper with several paths (tests, early panics) is evaluated in place: each of its paths
         that is consistent with what the caller has already decided continues (or ends) the caller's path, with the helper's
         conditions and calls recorded as the caller's.  -> True if the call was handled this way."""
-        if any(pty.startswith('&mut ') for _pn, pty in callee.params):
-            return False
+        # a `&mut` parameter is fine when the caller hands over one of its own parameters (the helper's pops / pushes are then the
+        # caller's, on the same container); a `&mut` to a caller local whose contents are tracked in env is not modelled
+        for (_pn, pty), a in zip(callee.params, args):
+            if pty.startswith('&mut ') and not (isinstance(a, tuple) and a and a[0] == 'param'):
+                return False
         ps = self._callee_paths(callee, depth + 1)
         if ps is None:
             return False
